@@ -329,6 +329,16 @@ func (g *simGen) stmts() []*stmt {
 		name := fmt.Sprintf("i%d", g.id())
 		s := &stmt{k: sFor, name: name, n: int64(1 + g.t.Choose(3)), body: g.block(1+g.t.Choose(3), g.t.Chance(2, 3))}
 		g.inLoop--
+		if g.t.Chance(1, 3) {
+			// generic for with a closing value
+			s.k = sForIn
+			cv := cst(mval{})
+			if g.t.Chance(4, 5) {
+				mode := g.t.Weighted(8, 2)
+				cv = &expr{k: eMkc, n: int64(g.id()), args: []*expr{cst(intv(int64(mode))), cst(intv(0))}}
+			}
+			s.exps = []*expr{cv}
+		}
 		return []*stmt{s}
 	case 7:
 		g.inLoop++
